@@ -76,7 +76,7 @@ Section Diag.
   Lemma DiagR_swap i r T :
     S i < r -> DiagR r T -> DiagR r (m_swap_cols i (S i) (m_swap_rows i (S i) T)).
   Proof.
-    intros Hi HD. pose proof HD as (W & Hr & Hoff & Hnz & Hz).
+    intros Hi HD. pose proof HD as (W & Hr & Hoff & Hnz & Hz). fold o in Hoff, Hnz, Hz.
     assert (W1 : wf m n (m_swap_rows i (S i) T)) by (apply wf_swap_rows; try assumption; lia).
     assert (HE : forall a b, a < m -> b < n ->
                get (m_swap_cols i (S i) (m_swap_rows i (S i) T)) a b = get T (swp i (S i) a) (swp i (S i) b)).
@@ -97,7 +97,7 @@ Section Diag.
     let T2 := m_right_elem D sx ty (- b) a i (S i) T1 in
     DiagR r T2 /\ get T2 i i = d /\ get T2 (S i) (S i) = a * b * d.
   Proof.
-    intros Hi HD Hd Hx Hy Hbz T1 T2. pose proof HD as (W & Hr & Hoff & Hnz & Hz).
+    intros Hi HD Hd Hx Hy Hbz T1 T2. pose proof HD as (W & Hr & Hoff & Hnz & Hz). fold o in Hoff, Hnz, Hz.
     assert (Him : S i < m) by lia. assert (Hin : S i < n) by lia.
     assert (W1 : wf m n T1) by (apply wf_left_elem; try assumption; lia).
     assert (W2 : wf m n T2) by now apply wf_right_elem.
@@ -193,7 +193,7 @@ Section Diag.
   Lemma DiagR_mul_row k r v vi T :
     k < r -> v * vi = 1 -> DiagR r T -> DiagR r (m_mul_row D k v T).
   Proof.
-    intros Hk Hv (W & Hr & Hoff & Hnz & Hz).
+    intros Hk Hv (W & Hr & Hoff & Hnz & Hz). fold o in Hoff, Hnz, Hz.
     assert (HE : forall a b, a < m -> b < n ->
                get (m_mul_row D k v T) a b = if a =? k then get T a b * v else get T a b).
     { intros. now apply (get_mul_row D m n). }
@@ -219,7 +219,7 @@ Section Diag.
     - destruct (sl_nunit_inv D SL (get (st_t s) k k)) as [vi Hvi]. fold v in Hvi.
       rewrite (s_mul_row_eq D k v vi s Hvi). intros E. inversion E; subst s'; clear E. cbn [st_t].
       pose proof (sl_inv D SL _ _ Hvi) as Hv. fold o in Hv.
-      pose proof HD as (W & Hr & Hoff & Hnz & Hz).
+      pose proof HD as (W & Hr & Hoff & Hnz & Hz). fold o in Hoff, Hnz, Hz.
       assert (HE : forall a, a < r -> get (m_mul_row D k v (st_t s)) a a =
                                      if a =? k then get (st_t s) a a * v else get (st_t s) a a).
       { intros a Ha. apply (get_mul_row D m n); try assumption; lia. }
